@@ -12,6 +12,9 @@ REPO="${REPO:-/repo}"
 HERE="$(cd "$(dirname "$0")" && pwd)"
 OUT="${VERIF_BUILD_ROOT:-$HERE/build}/$V"
 mkdir -p "$OUT/obj" "$OUT/gen" "$OUT/sim"
+# two checks started at the same time must not rebuild the same directory concurrently
+exec 9>"$OUT/.build.lock"
+flock 9
 
 COMMON="-std=c17 -D_POSIX_C_SOURCE=200809L -DCIMBA_VERIF -fno-semantic-interposition -ftls-model=initial-exec -Wno-pedantic -I$REPO/include -I$REPO/src -I$OUT/gen"
 case "$V" in
